@@ -4,6 +4,7 @@ pub mod engine;
 pub mod impls;
 pub mod refmodel;
 pub mod p_short;
+pub mod p_ints;
 
 use engine::{CheckResult, Ctx, Report};
 use serde_json::Value;
@@ -13,6 +14,8 @@ pub fn run_property(ctx: &Ctx) -> Option<Report> {
         "C01" => Some(p_short::run_c01(ctx)),
         "C02" => Some(p_short::run_c02(ctx)),
         "C03" => Some(p_short::run_c03(ctx)),
+        "C04" => Some(p_ints::run_ints(ctx, p_ints::Mode::C04)),
+        "C05" => Some(p_ints::run_ints(ctx, p_ints::Mode::C05)),
         _ => None,
     }
 }
@@ -22,6 +25,8 @@ pub fn replay_case(prop: &str, sub: &str, case: &Value) -> Option<CheckResult> {
         "C01" => p_short::replay_c01(sub, case),
         "C02" => p_short::replay_c02(sub, case),
         "C03" => p_short::replay_c03(sub, case),
+        "C04" => p_ints::replay_ints(p_ints::Mode::C04, sub, case),
+        "C05" => p_ints::replay_ints(p_ints::Mode::C05, sub, case),
         _ => None,
     }
 }
